@@ -84,12 +84,15 @@ func strDump(L *LState) int {
 func strFind(L *LState) int {
 	str := L.CheckString(1)
 	pattern := L.CheckString(2)
+	init := luaIndex2StringIndex(str, L.OptInt(3, 1), true)
+	if init > len(str) {
+		init = len(str)
+	}
 	if len(pattern) == 0 {
-		L.Push(LNumber(1))
-		L.Push(LNumber(0))
+		L.Push(LNumber(init + 1))
+		L.Push(LNumber(init))
 		return 2
 	}
-	init := luaIndex2StringIndex(str, L.OptInt(3, 1), true)
 	plain := false
 	if L.GetTop() == 4 {
 		plain = LVAsBool(L.Get(4))
